@@ -242,6 +242,60 @@ fn case(m: &mut Mon, r: &mut Rng, _idx: u64) {
                 }, signed);
                 agree(&v, &format!("ibig {} signed primitive", opname))
             });
+            // the edges of the primitive types on both sides (MIN / -1, MAX + 1, 0): fast paths that compute in the
+            // primitive type live in single ownership arms
+            let (ti, ai, pi, dl) = (r.below(6), r.usize(7), r.usize(7), r.below(3));
+            macro_rules! boundary {
+                ($big:ty, $t:ty, $lift:expr) => {{
+                    let vals: [$t; 7] = [<$t>::MIN, <$t>::MIN + 1, (0 as $t).wrapping_sub(1), 0, 1, <$t>::MAX - 1, <$t>::MAX];
+                    let (a0, p) = (vals[ai], vals[pi]);
+                    let a: $big = $lift(a0, dl);
+                    m.check("prim_boundary", &format!("{}/{}", stringify!($t), opname), Some((ai * 7 + pi) as u64 ^ dl << 8 ^ ti << 12 ^ opi << 16 ^ 0xb0), &|| format!("prim_boundary op={} type={} big={} prim={}", opname, stringify!($t), a, p), || {
+                        let mut v: Forms = vec![];
+                        match opi {
+                            0 => prim_forms!(v, a, p, +, +=),
+                            1 => prim_forms!(v, a, p, -, -=),
+                            2 => prim_forms!(v, a, p, *, *=),
+                            3 => prim_forms!(v, a, p, /, /=),
+                            4 => {
+                                let (a, pp) = (&a, p);
+                                v.push(("big_prim", catch(|| (a.clone() % pp).show())));
+                                v.push(("refbig_prim", catch(|| (a % pp).show())));
+                                v.push(("big_refprim", catch(|| (a.clone() % &pp).show())));
+                                v.push(("refbig_refprim", catch(|| (a % &pp).show())));
+                                v.push(("div_rem.1", catch(|| a.div_rem(pp).1.show())));
+                            }
+                            _ => {
+                                mforms4!(v, a, p, div_rem);
+                                v.push(("div_rem_assign", catch(|| { let mut t = a.clone(); let rem = t.div_rem_assign(p); (t, rem).show() })));
+                                v.push(("operators", catch(|| (&a / p, &a % p).show())));
+                            }
+                        }
+                        agree(&v, &format!("{} {} {} at the edges of the type", stringify!($big), opname, stringify!($t)))
+                    });
+                }};
+            }
+            let lift_i = |v: i128, d: u64| IBig::from(v) + IBig::from(d) - IBig::ONE;
+            let lift_u = |v: u128, d: u64| UBig::from(v) + UBig::from(d);
+            if r.bool() {
+                match ti {
+                    0 => boundary!(IBig, i8, |v: i8, d| lift_i(v as i128, d)),
+                    1 => boundary!(IBig, i16, |v: i16, d| lift_i(v as i128, d)),
+                    2 => boundary!(IBig, i32, |v: i32, d| lift_i(v as i128, d)),
+                    3 => boundary!(IBig, i64, |v: i64, d| lift_i(v as i128, d)),
+                    4 => boundary!(IBig, i128, |v: i128, d| lift_i(v, d)),
+                    _ => boundary!(IBig, isize, |v: isize, d| lift_i(v as i128, d)),
+                }
+            } else {
+                match ti {
+                    0 => boundary!(UBig, u8, |v: u8, d| lift_u(v as u128, d)),
+                    1 => boundary!(UBig, u16, |v: u16, d| lift_u(v as u128, d)),
+                    2 => boundary!(UBig, u32, |v: u32, d| lift_u(v as u128, d)),
+                    3 => boundary!(UBig, u64, |v: u64, d| lift_u(v as u128, d)),
+                    4 => boundary!(UBig, u128, |v: u128, d| lift_u(v, d)),
+                    _ => boundary!(UBig, usize, |v: usize, d| lift_u(v as u128, d)),
+                }
+            }
         }
         44..=51 => {
             // trait-method forms vs operators
